@@ -12,9 +12,11 @@
   flag exactly on the last rank, en passant only onto the target, castling only with right, rook,
   empty and unattacked squares — adjacent enemy king included —, own king not attacked afterwards).
   The pseudo-legal stage is an equivalence (`pseudo_targets_are_the_rules`, both directions).
-  "No move appears twice" (the successor list has no two entries with the same move) and the
-  preservation of well-formedness along chains are decided on every run by the
-  correspondence with the SPEC oracle (exhaustive castling lattice, two-ply special chains,
+  `exactly_the_legal_moves_along_chains`, `exactly_the_legal_moves_from_the_start_position`: the same
+  at every position reachable by generated moves (either mode) from a well-formed position, in
+  particular from the start position — legal positions are closed under legal moves.
+  "No move appears twice" (the successor list has no two entries with the same move) is decided on
+  every run by the correspondence with the SPEC oracle (exhaustive castling lattice, two-ply special chains,
   playouts, constructed positions).  Also proved, for every position satisfying the chain invariant
   and every hasher:
     * the SPEC side: `legalMoves` is sound, complete and duplicate free for `legal` (by construction);
@@ -31,6 +33,8 @@ import Walleye.Proofs.Caps
 import Walleye.Spec.Rules
 import Walleye.Proofs.StartWF
 import Walleye.Proofs.Complete
+import Walleye.Props.C02
+import Walleye.Props.C05
 namespace Walleye
 
 theorem spec_legalMoves_sound_complete (P : Spec.Position) (m : Spec.Move) (hm : m ∈ Spec.allMoves) :
@@ -97,6 +101,18 @@ theorem generated_moves_are_exactly_the_legal_moves (h : Hasher) (p : Pos) (wf :
   constructor
   · rintro ⟨q, hq, rfl⟩; exact (generateMoves_sound h p wf q hq).1
   · exact generateMoves_complete h p wf m
+
+/-- **C01 along chains of any length** -/
+theorem exactly_the_legal_moves_along_chains (h : Hasher) (p q : Pos) (wf : WFp p) (hinv : Inv h p)
+    (hc : GenChain h p q) (m : Spec.Move) :
+    (∃ s ∈ generateMoves h q .all, moveOf s = m) ↔ Spec.legal (abs q) m = true :=
+  generated_moves_are_exactly_the_legal_moves h q (gen_chain_wf h p q wf hinv hc).1 m
+
+/-- every position reachable from the start position by generated moves: the real constants -/
+theorem exactly_the_legal_moves_from_the_start_position (q : Pos) (hc : GenChain Hasher.real startPosition q)
+    (m : Spec.Move) :
+    (∃ s ∈ generateMoves Hasher.real q .all, moveOf s = m) ↔ Spec.legal (abs q) m = true :=
+  exactly_the_legal_moves_along_chains Hasher.real startPosition q start_wf start_inv hc m
 
 /-- the premises are satisfiable: the start position is well formed -/
 theorem start_is_well_formed : WFp startPosition := start_wf
